@@ -18,8 +18,13 @@ import (
 	"time"
 )
 
-// Root is the /verif directory.
-var Root = "/verif"
+// Root is the /verif directory (VERIF_ROOT overrides it for isolated snapshot runs).
+var Root = func() string {
+	if v := os.Getenv("VERIF_ROOT"); v != "" {
+		return v
+	}
+	return "/verif"
+}()
 
 // Run is the context of one check execution.
 type Run struct {
